@@ -124,7 +124,7 @@ PROPS = {
         "claimed": True,
         "technique": "TLA+ editor model (tree-shaped I-layer) checked against the property relation on every edge by TLC; every edge replayed as a history on a live object; recorded histories validated against the trace specification",
         "level_text": "TLC checks on every edge of the bounded document graph that the implementation-shaped editor step (spec/Deb822Edit.tla) satisfies the property relation (spec/Deb822EditP.tla: list effect on the reported content, identity of every line outside the touched field, strict re-read equals reported content, earlier handles see the edit); every edge is replayed on a live object from its base document through the shortest history and the observed text/content compared with the predicted one; any step that differs, and every step of seeded random histories on repository documents, is judged by the same relation in TLC (trace validation).",
-        "level_note": "bounded graph (<= 2/3 paragraphs x <= 2 fields, 19 base layouts incl. comments, blank runs, missing final newline, duplicate names, built and parsed origins); strict reader trusted for the re-read clause only together with the spec's own reading of the printed lines",
+        "level_note": "bounded graph (<= 2/3 paragraphs x <= 2 fields, 21 base layouts incl. comments, blank runs, missing final newline, duplicate names, empty values, a big document, built and parsed origins; values that are names of other fields; out-of-range indices also as 256, 2^16, 2^32, usize::MAX); strict reader trusted for the re-read clause only together with the spec's own reading of the printed lines",
         "stages": [EDIT_EDGES, EDIT_TRACE],
         "rule": "every edge (document, operation) of the TLC state graph, replayed with its shortest history on a live object under 2-3 concretisations; plus seeded random histories of 10-60 calls on repository documents; distinct = distinct (base, history, operation) resp. distinct (operation, pre-text)",
         "exhaustive": {"quick": True, "thorough": True},
@@ -154,7 +154,7 @@ PROPS = {
         "claimed": True,
         "technique": "TLA+ generator of Policy 7.1 fields whose tokens are tagged with their role, so the reading is known by construction; refinement to the parser machine + accessor model checked by TLC; fields replayed on both real readers",
         "level_text": "spec/MCRelDocs.tla generates fields from abstract structure (option lattice of qualifier, operator, epoch, architecture list with negations, profile groups; alternatives, entries, empty entries, substitution variables) and layout choices; TLC proves the parser machine accepts each and that the accessor structure equals the reading read off the tags; every field is concretised by role and both real readers are compared with that reading component by component.",
-        "level_note": "bounded generator (<= 3 entries x <= 2 alternatives, 5 comma layouts x 3 pipe layouts x 3 inner layouts); blanks only where Policy clearly allows them",
+        "level_note": "bounded generator (<= 3 entries x <= 2 alternatives (5-6 in one family), comma / pipe layouts incl. line breaks and long blank runs, 7 inner layouts incl. line breaks inside parentheses and brackets, random larger fields, restriction lists of 33 / 70 / 300 items); blanks only where both readers take them",
         "stages": [REL_DOCS],
         "rule": "every generated field (distinct token sequences), 3 concretisations each",
         "exhaustive": {"quick": True, "thorough": True},
@@ -164,7 +164,7 @@ PROPS = {
         "claimed": True,
         "technique": "TLA+ definition of satisfaction (Sat) enumerated by TLC into the complete decision table within bounds; every row replayed on all evaluators and lookup forms",
         "level_text": "spec/MCRelSat.tla defines Sat over fields of entries of alternatives with operators and version ranks; TLC enumerates every field shape x operator x installed assignment and prints the expected answer per field and per entry; each row is evaluated by the lossless Relations/Entry evaluators and the lossy Relations/Relation evaluators through the map, closure and single-pair lookups, along two concrete version chains (epochs, revisions, '~').",
-        "level_note": "bounded: <= 2 entries x <= 2 alternatives over 2 packages, installed in {absent, lower, equal, higher}; debversion's ordering of the two chains is trusted",
+        "level_note": "bounded: <= 2 entries x <= 2 alternatives (plus 3 alternatives / 3 entries) over 2 packages, installed in {absent, lower, equal, higher}, nine concretisations of the version chain (epochs, revisions, binary rebuilds, case-variant namesakes), each field also folded inside its relations; debversion's ordering of the chains is checked to be ascending and otherwise trusted",
         "stages": [REL_SAT],
         "rule": "complete decision table: field shape x (package, operator, required rank) per alternative x installed rank per package; distinct = distinct (field, assignment)",
         "exhaustive": {"quick": True, "thorough": True},
@@ -194,7 +194,7 @@ PROPS = {
         "claimed": True,
         "technique": "TLA+ list-of-lists model of the field (operand origin tracked in the state); TLC enumerates every history up to the depth bound from ten base layouts; each edge replayed on a live field and compared with the model after every step",
         "level_text": "spec/MCRelEdit.tla is the list-of-lists semantics the property names (P-layer = I-layer), over every editing operation of Relations / Entry / Relation at every index, with operands built by parsing, by the constructors and by the builder; TLC enumerates all histories to the depth bound from base fields with plain, tight, multi-line, empty-entry, trailing-comma and substitution-variable layouts; the harness replays each on a live object (edits through get_entry / get_relation handles) and after every step compares the accessor structure and the structure of the strictly re-parsed printed text with the model, that substitution variables and unaddressed entries keep their text, and that no surplus separator appears.",
-        "level_note": "bounded: histories of length <= 2 (quick) / 3 (thorough), <= 3 entries x <= 2 alternatives, 3 operand values x 3 origins; indices in range (out-of-range remove/replace unwrap by contract)",
+        "level_note": "bounded: histories of length <= 2 (quick) / 3 (thorough) from about 95 base fields (1 step from the 72 part-subset bases and the long field), <= 3 entries x <= 2 alternatives, 5 operand values x 3 origins, blanks of the base as space / TAB / CR; indices in range (out-of-range remove/replace unwrap by contract)",
         "stages": [REL_EDIT],
         "rule": "every edge of the TLC state graph = (base layout, shortest history, operation); all distinct and non-trivial",
         "exhaustive": {"quick": True, "thorough": True},
@@ -204,7 +204,7 @@ PROPS = {
         "claimed": True,
         "technique": "TLA+ list model of a lossy paragraph (list laws checked by TLC); every history edge replayed on the real paragraph; printed text re-read with both readers at every state",
         "level_text": "spec/MCLossyPara.tla models a lossy paragraph as the ordered list it is and set/insert/remove with the list semantics of Deb822EditP; TLC checks the list laws and enumerates all histories to the depth bound from six base paragraphs over three names (one differing from another by case only); the harness replays each on lossy::Paragraph, compares the field list, get, len after every step, and prints the resulting paragraph (and a two-paragraph document) and reads it back with the lossy and the lossless reader.",
-        "level_note": "bounded: histories <= 3 operations, <= 4 fields, 2 names, 6 value shapes (single line, several lines, empty, empty first line, trailing blanks / ':' / '#', non-ASCII with ':' and '-' continuation lines) x 3 concretisations",
+        "level_note": "bounded: histories <= 3 operations, <= 4 fields, 3 names (one a case variant), 6 value shapes (single line, several lines, empty, empty first line, trailing blanks / ':' / '#', non-ASCII with ':' and '-' continuation lines) x 3 concretisations",
         "stages": [{"kind": "tlc_replay", "name": "lossy_para_edges", "module": "MCLossyPara.tla", "cfg": "MCLossyPara.cfg", "stage": "lossy_para", "coverage": False,
                     "consts": {"quick": {"Depth": 2, "MaxF": 4}, "thorough": {"Depth": 3, "MaxF": 5}},
                     "workers": {"quick": 8, "thorough": 12}, "timeout": {"quick": 300, "thorough": 3000}}],
@@ -228,7 +228,7 @@ PROPS = {
         "claimed": True,
         "technique": "TLA+ line machine of the clear-sign unwrapper with outcome known by construction (wrap, cut after every line, append lines); TLC proves machine = construction and every case is replayed on strip_pgp_signature",
         "level_text": "spec/MCPgp.tla builds messages from (headers, payload, signature) line sets, cuts them after every line (with and without final LF) or appends lines, and states the outcome that construction demands; TLC proves the implementation-shaped line machine yields it; each case is concretised (marker look-alikes, deb822 content, blank lines) and strip_pgp_signature's payload, signature or specific error compared; unsigned texts must pass through unchanged; all short line-class sequences are compared with the machine as drift.",
-        "level_note": "bounded: <= 2 header lines, <= 2 (3 thorough) payload lines over {text, empty, deb822-looking, look-alike}, <= 2 signature lines; lines contain no CR",
+        "level_note": "bounded: <= 2 header lines, <= 2 (3 thorough) payload lines over {text, empty, deb822-looking, look-alike}, <= 2 signature lines; no line ENDS in CR (a CR inside a line is text); complete messages are also cut inside their END line",
         "stages": [{"kind": "tlc_replay", "name": "pgp_messages", "module": "MCPgp.tla", "cfg": "MCPgp.cfg", "stage": "pgp",
                     "consts": {"quick": {"MaxPayload": 2, "SeqLen": 4}, "thorough": {"MaxPayload": 3, "SeqLen": 6}},
                     "workers": {"quick": 8, "thorough": 16}, "timeout": {"quick": 300, "thorough": 3000}}],
@@ -282,7 +282,7 @@ PROPS = {
         "claimed": True,
         "technique": "TLA+ generator of typed documents from the field tables of the deriving structs (roles, mandatory fields, classifier, structural rules) with the verdict the rules demand; rendered with canonical values and replayed on every lossy typed reader/printer, compared with the lossless reader",
         "level_text": "spec/MCTypedDocs.tla + TypedTables.tla generate, for control files, copyright files, apt Release/Sources/Packages stanzas, removal records, buildinfo (parse only), DEP-3 headers and APT sources lists: all fields present, mandatory fields only, each optional field absent, every allowed paragraph order, comments and blank runs, and the structurally invalid variants (no / two source paragraphs, a paragraph of neither kind, each mandatory field missing) with the verdict the rules give (checked by TLC against the rule predicate); the harness renders each with canonical values for the declared types and checks acceptance / rejection, print -> parse -> print stability and field-by-field equality of the printed value with the lossless reading of the input.",
-        "level_note": "tables are generated from the struct declarations (tools/gen_typed_tables.py); one canonical sample value per field; dropping the field that distinguishes a role reclassifies the paragraph and is not generated as invalid",
+        "level_note": "tables are generated from the struct declarations (tools/gen_typed_tables.py); up to three sample values per field (relation samples without substitution variables, which the lossy types cannot hold); fields also in reverse order; control files also with foreign fields; dropping the field that distinguishes a role reclassifies the paragraph and is not generated as invalid",
         "stages": [{"kind": "tlc_replay", "name": "typed_documents", "module": "MCTypedDocs.tla", "cfg": "MCTypedDocs.cfg", "stage": "typed",
                     "consts": {"quick": {"NSamples": 3, "Deep": "FALSE"}, "thorough": {"NSamples": 3, "Deep": "TRUE"}},
                     "workers": {"quick": 4, "thorough": 12}, "timeout": {"quick": 300, "thorough": 3000}}],
@@ -294,7 +294,7 @@ PROPS = {
         "claimed": True,
         "technique": "every setter/getter pair of the lossless typed views called on paragraphs in three prior states; each call recorded as a trace event on the DOCUMENTED field name and judged by the TLA+ P-layer of the field editors (Deb822EditP via Deb822EditTrace) plus getter = value set",
         "level_text": "tools/gen_accessors.py derives, for each of the 137 setter/getter pairs of control Source/Binary, apt Source/Package/Release, Buildinfo, copyright Header and DEP-3 PatchHeader, the field name the accessor is documented for (Debian naming convention + Policy exceptions, not the literals in the code) and generates a binding; the harness calls every setter (and clearing form) on a paragraph where the field is absent, present, and present among comments and other fields; each call is a `set`/`remove` event on the documented name that spec/Deb822EditTrace.tla judges with SetOK/RemoveOK (exactly the list effect, one field of that name, every other line and comment untouched, strict re-read equals what the object reports) together with getter == value set; sequences of several setters on one live view are recorded as one history each and judged step by step by the same relation; getters on raw text (lists with varied blanks and folding, flags, checksum triples, first description line) are compared with the documented reading; source()/binaries() are checked on a three-paragraph control file.",
-        "level_note": "one valid value per accessor type; 5 setters with two arguments or without getter are skipped (listed in the evidence); copyright FilesParagraph/LicenseParagraph setters and Changes are not bound; ",
+        "level_note": "one valid value per accessor type (three for relation lists: plain, empty, with substitution variables); the 5 setters the generator skips (two arguments / map / no getter of the same name) and the copyright FilesParagraph setters are bound by hand; Changes has getters only (read on raw text); ",
         "stages": [{"kind": "trace", "name": "accessor_calls", "module": "Deb822EditTrace.tla", "cfg": "Deb822EditTrace.cfg", "stage": "accessors",
                     "prop_of": (lambda ev: ["C15"]), "n": {"quick": 12, "thorough": 400}, "timeout": {"quick": 600, "thorough": 3000}}],
         "rule": "one history (prior state, call) per accessor x prior state x {set, clear}, plus 12 (400 thorough) seeded random histories per view of 3-6 setter / clearing calls on ONE live view over a prior paragraph with some of its fields present; all distinct",
